@@ -15,6 +15,7 @@ LEVEL_TEXT = ("Real paired-end runs (two files and interleaved, all filter/redir
               "for the untrimmed filters when adapters exist for one side only). With --pair-adapters both mates carry matches of the same rank "
               "or both are unmatched and equal the records of a run without adapters.")
 LEVEL_TEXT += " Paired --revcomp scenarios (mates of about half of the pairs exchanged in the input; the reference is read off the records of a filter-free run: ' rc' in the name, lengths) and adapters named 'unknown' under demultiplexing."
+LEVEL_TEXT += ' --pair-adapters with --action=lowercase on lower-case reads (pairs without a match of one rank come out as they went in).'
 LEVEL_NOTE = ("Trusted base: independent parser, unique pair ids, refmodel predicates and the combination table written from the guide; the "
               "baseline run gives each mate's processed record and last-match name.")
 VARIANTS = {"quick": ["plain"], "thorough": ["plain"]}
